@@ -179,6 +179,9 @@ def _is_byte_to_char_conversion(e: ast.Call) -> bool:
     return False
 
 
+LATER_RULES = ' Later rules: R13.4 also demands root= to be the parse of the whole source; (R13.5) line lists are indexed by line number minus one or under a sufficient bound; (R13.6) text[pos - 1] needs pos > 0.'
+
+
 def check(prog: Program, tier: str) -> Result:
     res = Result(
         "C13",
@@ -196,6 +199,7 @@ def check(prog: Program, tier: str) -> Result:
             "decorator / whitespace adjustments of get_charnos and the span logic of match/fullmatch."),
         rule_text="instances = arithmetic / comparison / indexing expressions over position values, indexing of line lists, API wrapper derivations; non-trivial = expressions involving a byte column or an ast line number",
     )
+    res.explanation += LATER_RULES
     res.trusted_base = ["CPython ast", "dimension typing rules in sa/props/c13.py (which expressions are byte columns, character offsets, splitlines lists)"]
     res.assumptions = ["ast.col_offset / end_col_offset count UTF-8 bytes; ast.lineno counts tokenizer lines (language reference)"]
     # return units of repository functions (one round is enough for the helpers involved)
